@@ -47,7 +47,26 @@ def native_replay(exe, kind, input_hex, args):
     return dict(disagree=(rc == 1), output=out.strip().split('\n')[-3:], exit=rc)
 
 
+def find_cli(job, rec, work):
+    """C20: the real eav tool (ASan/UBSan build of the tree under test) against replay/cli_ref.c on a corpus of files"""
+    import json as _json
+    rc, out, err, s = sh(['python3', os.path.join(VERIF, 'replay', 'cli_oracle.py'), 'search', REPO, work], timeout=900)
+    line = [l for l in out.split('\n') if l.startswith('FOUND') or l.startswith('NOTFOUND')]
+    rec['native_search'] = [dict(kind='cli', result=(line[-1][:300] if line else 'error: ' + err[-300:]), seconds=round(s, 1))]
+    if line and line[-1].startswith('FOUND'):
+        d = _json.loads(line[-1][6:])
+        arg = _json.dumps(dict(files=d['files']))
+        rc2, out2, err2, _ = sh(['python3', os.path.join(VERIF, 'replay', 'cli_oracle.py'), 'replay', REPO, work, arg], timeout=300)
+        return dict(oracle_kind='cli', oracle_args=[], input_hex=arg,
+                    input_text='file(s) given to bin/eav: ' + ' | '.join(repr(bytes.fromhex(h))[:80] for h in d['files']) + '  -> ' + d['explanation'][:300],
+                    native_cmd='replay/cli_oracle.py replay <repo> <work> \'%s\'  (bin/eav built with ASan/UBSan, guard off, against replay/cli_ref.c)' % arg[:200],
+                    native_result=dict(disagree=(rc2 == 1), output=out2.strip().split('\n')[-2:], exit=rc2), replay_confirms=(rc2 == 1))
+    return None
+
+
 def find(job, o, rec, work):
+    if job.name.startswith('cli_'):
+        return find_cli(job, rec, work)
     kinds = KIND.get(job.name)
     if not kinds:
         return None
